@@ -512,10 +512,7 @@ def run(chk):
     from symex import loader
 
     mat = loader.load('absorption.material')
-    chk.functions = loader.describe([cyl.Cylinder.beam_intersection, cyl.Cylinder.quadrature, cyl.Cylinder._select_quadrature_points, cyl.Cylinder.center.fget,
-                                     cyl._line_infinite_cylinder_intersection, cyl._line_slab_intersection, cyl._positive_interval_intersection,
-                                     cyl._cylinder_quadrature_from_product, base.compute_transmission_map, base._integrate_transmission_fraction,
-                                     base._single_scatter_distance_through_sample, base._transmission_fraction, mat.Material.attenuation_coefficient])
+    chk.functions = loader.describe_exprs(['cyl.Cylinder.beam_intersection', 'cyl.Cylinder.quadrature', 'cyl.Cylinder._select_quadrature_points', 'cyl.Cylinder.center.fget', 'cyl._line_infinite_cylinder_intersection', 'cyl._line_slab_intersection', 'cyl._positive_interval_intersection', 'cyl._cylinder_quadrature_from_product', 'base.compute_transmission_map', 'base._integrate_transmission_fraction', 'base._single_scatter_distance_through_sample', 'base._transmission_fraction', 'mat.Material.attenuation_coefficient'], {**globals(), **locals()})
     run_jobs(chk, job_cyl_helper, [None, 'south'])
     run_jobs(chk, job_slab_helper, [0])
     kinds = [('fin', 'fin', 'fin', 'fin'), ('ninf', 'inf', 'fin', 'fin'), ('fin', 'fin', 'ninf', 'inf'), ('ninf', 'inf', 'ninf', 'inf')]
